@@ -9,7 +9,9 @@ package main
 import (
 	"bufio"
 	"encoding/json"
+	"flag"
 	"fmt"
+	"math/rand"
 	"os"
 	"os/exec"
 	"strings"
@@ -56,6 +58,7 @@ func init() {
 		w.runPHist(&c, inner)
 	}
 	commands["fresh-parse"] = freshParseMain
+	commands["compose-hist"] = composeHistMain
 }
 
 // the model's function table restricted to the names of this configuration
@@ -251,4 +254,58 @@ func (w *worker) runPHist(c *phCase, raw []byte) {
 		}
 	}
 	w.distinct(hist)
+}
+
+// compose-hist: long random Parse histories.  TLC has printed the demanded outcome of every pool entry
+// (the histories of length 1); because the specification's outcome of a call does not mention the calls
+// before it, a history of length L is any sequence of L entries with those outcomes.
+func composeHistMain(args []string) {
+	fs := flag.NewFlagSet("compose-hist", flag.ExitOnError)
+	in := fs.String("in", "", "file with TLC output of Gen_ParseHist with MaxCalls = 1")
+	seed := fs.Int64("seed", 1, "")
+	n := fs.Int("n", 2000, "")
+	length := fs.Int("len", 10, "")
+	fs.Parse(args)
+	f, err := os.Open(*in)
+	if err != nil {
+		fmt.Fprintln(os.Stderr, err)
+		os.Exit(2)
+	}
+	var entries []json.RawMessage
+	var probes json.RawMessage
+	sc := bufio.NewScanner(f)
+	sc.Buffer(make([]byte, 1<<20), 1<<26)
+	for sc.Scan() {
+		inner, ok := decodeLine(sc.Bytes())
+		if !ok {
+			continue
+		}
+		var c struct {
+			Fam    string            `json:"fam"`
+			Probes json.RawMessage   `json:"probes"`
+			Calls  []json.RawMessage `json:"calls"`
+		}
+		if json.Unmarshal(inner, &c) != nil || c.Fam != "phist" || len(c.Calls) != 1 {
+			continue
+		}
+		probes = c.Probes
+		entries = append(entries, c.Calls[0])
+	}
+	if len(entries) == 0 {
+		fmt.Fprintln(os.Stderr, "no pool entries found")
+		os.Exit(2)
+	}
+	rnd := rand.New(rand.NewSource(*seed))
+	out := bufio.NewWriter(os.Stdout)
+	defer out.Flush()
+	for i := 0; i < *n; i++ {
+		l := 4 + rnd.Intn(*length-3)
+		calls := make([]json.RawMessage, l)
+		for k := range calls {
+			calls[k] = entries[rnd.Intn(len(entries))]
+		}
+		b, _ := json.Marshal(map[string]interface{}{"fam": "phist", "probes": probes, "calls": calls})
+		out.Write(b)
+		out.WriteByte('\n')
+	}
 }
